@@ -16,6 +16,7 @@ var urlQueries = []string{"?a=1&amp;amp;amp;b=2", "?x=&amp;amp;amp;amp;", "?a=&a
 var urlFrags = []string{"", "#", "#top", "#a b", "#<x>", "#%zz", "#a#b"}
 
 var dataURIs = []string{
+	"data:image/png ;base64,iVBORw0KGgo=", "data:image/png; charset=x;base64,iVBORw0KGgo=", "data:text/html ;base64,PHNjcmlwdD4=", "data: image/png;base64,iVBORw0KGgo=", "data:image/png;base64 ,iVBORw0KGgo=", "data:image/png\t;base64,iVBORw0KGgo=", "data:image/png;\nbase64,iVBORw0KGgo=",
 	"data:image/png;base64,iVBORw0KGgo=", "data:image/gif;base64,R0lGODlhAQABAAAAACw=", "data:image/jpeg;base64,/9j/4AAQ", "data:image/webp;base64,UklGRg==",
 	"data:image/svg+xml;base64,PHN2Zy8+", "data:image/png;base64,iVBORw0KGgo", "data:image/png;base64,iVBO Rw0K\nGgo=", "data:image/png;base64,iVBORw0KGgo=?x=1", "data:image/png;base64,iVBORw0KGgo=#f",
 	"data:text/html;base64,PHNjcmlwdD5hbGVydCgxKTwvc2NyaXB0Pg==", "data:text/html,<script>alert(1)</script>", "data:,x", "data:image/png,notbase64", "DATA:image/png;base64,iVBORw0KGgo=",
@@ -100,7 +101,7 @@ func HostileURL(r *rand.Rand) string {
 	return u
 }
 
-var canonHosts = []string{"[2001:db8::ff]", "[2001:db8::ff]:8080", "example.org", "cdn.example.net", "a.b.example", "example.org:8080", "127.0.0.1"}
+var canonHosts = []string{"jane@example.org", "user:pw@example.org", "[2001:db8::ff]", "[2001:db8::ff]:8080", "example.org", "cdn.example.net", "a.b.example", "example.org:8080", "127.0.0.1"}
 var canonPaths = []string{"", "/", "/a/b.png", "/a%20b", "/ok/file", "/x_y-z.html", "/a;p=1"}
 var canonQueries = []string{"?a=1&amp;amp;amp;b=2", "?x=&amp;amp;lt;", "", "?a=1", "?a=1&b=2", "?q=x%20y", "?a"}
 var canonFrags = []string{"", "#top", "#a-b"}
